@@ -137,15 +137,37 @@ func segment(base, enc string) string {
 	return base
 }
 
+// hostOf spells the authority part of the URI for a trust-domain class. Only "own", "ownUpper" and
+// "ownUser" have a HOST component equal to the cluster's trust domain (ASCII case folding); the
+// others are spellings a URL parser tolerates around the very same name.
 func hostOf(td string) string {
 	switch td {
 	case "ownUpper":
 		return strings.ToUpper(TrustDomain)
+	case "ownUser":
+		return "user@" + TrustDomain
+	case "ownPort":
+		return TrustDomain + ":8443"
+	case "ownUpperPort":
+		return strings.ToUpper(TrustDomain) + ":8443"
+	case "ownEmptyPort":
+		return TrustDomain + ":"
+	case "ownUserPort":
+		return "user:pw@" + TrustDomain + ":1"
+	case "ipv6":
+		return "[::1]"
+	case "ownDot":
+		return TrustDomain + "."
+	case "ownBracket":
+		return "[" + TrustDomain + "]"
 	case "foreign":
 		return ForeignHost
 	}
 	return TrustDomain
 }
+
+// HostOf is hostOf for the random driver.
+func HostOf(td string) string { return hostOf(td) }
 
 func dcOf(dc string) string {
 	if dc == "other" {
@@ -372,6 +394,10 @@ type World struct {
 	bits   int
 	pre    M
 	preCmd M
+
+	raceArmed bool // commit a competing CAOpSetRoots ahead of the manager's next roots-bearing request
+	raceFired bool
+	inRace    bool
 }
 
 // Project copies the CA tables: roots (id, active), roots index, config (name, modify index), serials seen.
@@ -406,7 +432,11 @@ func (w *World) Project() M {
 		sl = append(sl, s)
 	}
 	sort.Slice(sl, func(i, j int) bool { return sl[i] < sl[j] })
-	return M{"roots": rootsJ(roots), "ridx": ridx, "cfg": cfg, "seen": sl, "active": active}
+	signer := ""
+	if w.Mgr != nil {
+		signer = w.Mgr.VerifActiveProviderRootID()
+	}
+	return M{"roots": rootsJ(roots), "ridx": ridx, "cfg": cfg, "seen": sl, "active": active, "signer": signer}
 }
 
 // absReq maps a real CARequest to the command vocabulary of spec/CA.tla.
@@ -454,6 +484,9 @@ func (w *World) onApply(before bool, a consul.VerifCAApplied) {
 	}
 	c := w.preCmd
 	c["via"] = "manager"
+	if w.inRace {
+		c["via"] = "race"
+	}
 	res := absResult(c, a.Result)
 	ev := M{"cmd": c, "res": res, "pre": w.pre, "post": nil}
 	if sn, ok := a.Result.(uint64); ok && c["t"] == "inc-serial" {
@@ -462,6 +495,33 @@ func (w *World) onApply(before bool, a consul.VerifCAApplied) {
 	ev["post"] = w.Project()
 	if w.Emit != nil {
 		w.Emit(ev)
+	}
+}
+
+// beforeApply is the armed fault RacingRootWrite: just before the manager's own CAOpSetRootsAndConfig /
+// CAOpSetRoots gets its index, another writer (Server.pruneCARoots runs outside the manager's lock)
+// commits a CAOpSetRoots that re-writes the CURRENT roots at the CURRENT index, so only the index of
+// the roots table moves and the manager's conditional write is stale.
+func (w *World) beforeApply(req *structs.CARequest) {
+	if !w.raceArmed || w.inRace {
+		return
+	}
+	if req.Op != structs.CAOpSetRootsAndConfig && req.Op != structs.CAOpSetRoots {
+		return
+	}
+	ridx, roots, err := w.Store.CARoots(nil)
+	if err != nil || len(roots) == 0 {
+		return
+	}
+	var cp []*structs.CARoot
+	for _, r := range roots {
+		d := *r
+		cp = append(cp, &d)
+	}
+	w.raceArmed, w.raceFired, w.inRace = false, true, true
+	defer func() { w.inRace = false }()
+	if _, err := w.Del.ApplyCARequest(&structs.CARequest{Op: structs.CAOpSetRoots, Index: ridx, Roots: cp}); err != nil {
+		panic(fmt.Sprintf("racing root write failed: %v", err))
 	}
 }
 
@@ -483,6 +543,7 @@ func NewIssue(emit func(M)) (*World, error) {
 	w := &World{Store: state.NewStateStore(nil), Emit: emit, serial: map[uint64]bool{}, bits: 0}
 	w.Del = consul.VerifNewCADelegate(w.Store, OwnDC, 0)
 	w.Del.OnApply = w.onApply
+	w.Del.BeforeApply = w.beforeApply
 	m, err := consul.VerifNewCAManager(w.Del, &structs.CAConfiguration{
 		ClusterID: ClusterID, Provider: structs.ConsulCAProvider, Config: baseCAConfig(keyBitsCycle[0], "72h"),
 	})
@@ -592,20 +653,37 @@ func (w *World) projectLeaf(reply *structs.IssuedCert, sent []string) (M, error)
 
 // Reconfigure goes through the real CAManager.UpdateConfiguration. rotate=true changes the key
 // parameters (new provider id, new root, cross-signing, CAOpSetRootsAndConfig); rotate=false changes
-// only the leaf TTL (same root, CAOpSetConfig).
-func (w *World) Reconfigure(rotate bool) M {
+// only the leaf TTL (same root, CAOpSetConfig). race arms the RacingRootWrite fault for this call.
+// Afterwards a probe leaf (one plain service identity, write granted) is requested from the manager
+// as it now is and projected like any other leaf.
+func (w *World) Reconfigure(rotate, race bool) (M, error) {
 	w.nconf++
+	bits := w.bits
 	if rotate {
-		w.bits = (w.bits + 1) % len(keyBitsCycle)
+		bits = (w.bits + 1) % len(keyBitsCycle)
 	}
 	req := &structs.CARequest{Config: &structs.CAConfiguration{
 		Provider: structs.ConsulCAProvider,
-		Config:   baseCAConfig(keyBitsCycle[w.bits], fmt.Sprintf("%dh", 72+w.nconf)),
+		Config:   baseCAConfig(keyBitsCycle[bits], fmt.Sprintf("%dh", 72+w.nconf)),
 	}}
-	if err := w.Mgr.UpdateConfiguration(req); err != nil {
-		return M{"t": "err", "msg": err.Error()}
+	w.raceArmed, w.raceFired = race, false
+	err := w.Mgr.UpdateConfiguration(req)
+	w.raceArmed = false
+	res := M{"t": "ok", "raced": w.raceFired}
+	if err != nil {
+		res["t"], res["msg"] = "err", err.Error()
+	} else {
+		w.bits = bits
 	}
-	return M{"t": "ok", "signing_root": w.Mgr.VerifActiveProviderRootID()}
+	res["signing_root"] = w.Mgr.VerifActiveProviderRootID()
+	probe, perr := w.Sign(M{"csr": M{"uris": []any{M{"kind": "service", "td": "own", "dc": "own", "name": "web", "enc": "plain", "ap": "none"}},
+		"dns": float64(0), "ips": float64(0), "emails": float64(0)},
+		"authz": []any{M{"res": "service", "name": "web", "var": "exact"}}})
+	if perr != nil {
+		return nil, perr
+	}
+	res["probe"] = probe
+	return res, nil
 }
 
 // Raw applies one replicated CA command of the roots profile exactly as the FSM would: msgpack
